@@ -379,6 +379,18 @@ fn inside_braces(t: &str, i: usize) -> bool {
     depth > 0 || (i > 0 && b[i - 1] == b'\\')
 }
 
+/// the generator's own router (it only tracks which templates are live) must not take the generator down when the crate
+/// under test panics: the operation then counts as failed here, and the executor reports the panic with the exact operation
+fn shadow_insert(r: &mut Router<u32>, t: &str, d: u32) -> bool {
+    std::panic::catch_unwind(std::panic::AssertUnwindSafe(|| r.insert(t, d).is_ok())).unwrap_or(false)
+}
+fn shadow_delete(r: &mut Router<u32>, t: &str) -> bool {
+    std::panic::catch_unwind(std::panic::AssertUnwindSafe(|| r.delete(t).is_ok())).unwrap_or(false)
+}
+fn shadow_clone(r: &Router<u32>) -> Router<u32> {
+    std::panic::catch_unwind(std::panic::AssertUnwindSafe(|| r.clone())).unwrap_or_else(|_| shadow())
+}
+
 struct Hist {
     router: Router<u32>,
     live: Vec<(String, u32)>,
@@ -434,7 +446,7 @@ pub fn hist_with(rng: &mut Rng, histories: usize, family: bool, kin: bool, out: 
                 let t = rng.pick(&pool).clone();
                 out.insert(r, &t, next);
                 let h = hs[r].as_mut().unwrap();
-                if h.router.insert(&t, next).is_ok() {
+                if shadow_insert(&mut h.router, &t, next) {
                     h.live.push((t.clone(), next));
                     h.refresh();
                     let mine = parts_of(&t);
@@ -450,7 +462,7 @@ pub fn hist_with(rng: &mut Rng, histories: usize, family: bool, kin: bool, out: 
                 }
                 let t = rng.pick(&h.live).0.clone();
                 out.delete(r, &t);
-                if h.router.delete(&t).is_ok() {
+                if shadow_delete(&mut h.router, &t) {
                     h.live.retain(|x| x.0 != t);
                     h.refresh();
                 }
@@ -472,7 +484,7 @@ pub fn hist_with(rng: &mut Rng, histories: usize, family: bool, kin: bool, out: 
                 };
                 out.delete(r, &t);
                 let h = hs[r].as_mut().unwrap();
-                if h.router.delete(&t).is_ok() {
+                if shadow_delete(&mut h.router, &t) {
                     h.live.retain(|x| x.0 != t);
                     h.refresh();
                 }
@@ -487,7 +499,7 @@ pub fn hist_with(rng: &mut Rng, histories: usize, family: bool, kin: bool, out: 
                 if rng.chance(1, 2) {
                     out.insert(r, &t, next);
                     let h = hs[r].as_mut().unwrap();
-                    if h.router.insert(&t, next).is_ok() {
+                    if shadow_insert(&mut h.router, &t, next) {
                         h.live.push((t.clone(), next));
                         h.refresh();
                     }
@@ -495,7 +507,7 @@ pub fn hist_with(rng: &mut Rng, histories: usize, family: bool, kin: bool, out: 
                 } else {
                     out.delete(r, &t);
                     let h = hs[r].as_mut().unwrap();
-                    if h.router.delete(&t).is_ok() {
+                    if shadow_delete(&mut h.router, &t) {
                         h.live.retain(|x| x.0 != t);
                         h.refresh();
                     }
@@ -507,7 +519,7 @@ pub fn hist_with(rng: &mut Rng, histories: usize, family: bool, kin: bool, out: 
                 if let Some(free) = (0..hs.len()).find(|i| hs[*i].is_none()) {
                     out.op(format!("clone {r} {free}"));
                     let h = hs[r].as_ref().unwrap();
-                    hs[free] = Some(Hist { router: h.router.clone(), live: h.live.clone(), routes: h.routes.clone() });
+                    hs[free] = Some(Hist { router: shadow_clone(&h.router), live: h.live.clone(), routes: h.routes.clone() });
                     out.display(free);
                 } else if alive.len() > 1 && rng.chance(1, 2) {
                     out.op(format!("drop {r}"));
@@ -519,7 +531,7 @@ pub fn hist_with(rng: &mut Rng, histories: usize, family: bool, kin: bool, out: 
                     let r2 = *rng.pick(&others);
                     out.op(format!("clone {r} {r2}"));
                     let h = hs[r].as_ref().unwrap();
-                    hs[r2] = Some(Hist { router: h.router.clone(), live: h.live.clone(), routes: h.routes.clone() });
+                    hs[r2] = Some(Hist { router: shadow_clone(&h.router), live: h.live.clone(), routes: h.routes.clone() });
                     out.display(r2);
                 }
             } else if k < 81 {
@@ -547,7 +559,7 @@ pub fn hist_with(rng: &mut Rng, histories: usize, family: bool, kin: bool, out: 
                 }
                 out.display(r);
                 out.insert(r, &t, next);
-                if h.router.insert(&t, next).is_ok() {
+                if shadow_insert(&mut h.router, &t, next) {
                     let mine = parts_of(&t);
                     for _ in 0..2 {
                         let p = path(rng, &mine);
@@ -555,7 +567,7 @@ pub fn hist_with(rng: &mut Rng, histories: usize, family: bool, kin: bool, out: 
                         paths.push(p);
                     }
                     out.delete(r, &t);
-                    let _ = h.router.delete(&t);
+                    let _ = shadow_delete(&mut h.router, &t);
                 }
                 next += 1;
             }
